@@ -14,6 +14,8 @@ Decided:
               Frame field other than payload_offset / payload_length. Deleted and superseded frames keep their bytes in
               the file until vacuum, so a seed filtered by status (or anything else) under-counts after a reopen and
               lets a put through that the limit forbids.
+  FLOW-C24f   the size admitted is the size stored: every prepare_canonical_payload* call whose result length enters the
+              capacity comparison is also a source of WalEntryData.payload (the check and the storage share one buffer).
 Not decided: the value-level bound over histories. Untriaged candidate (not armed): enable_vec() and the vec manifest
 dimension are stored before the capacity check, so a rejected put is not entirely without trace."""
 from . import lib
@@ -39,8 +41,12 @@ def writes_field(F, fn, field, seen=None, depth=4):
     if fn.path in seen:
         return None
     seen.add(fn.path)
-    if lib.field_stores(fn, 'Memvid', field):
-        return fn.key
+    for st in lib.field_stores(fn, 'Memvid', field):
+        # an *advance by stored bytes*: the new value derives from a length (payload / buffer len, Frame.payload_length).
+        # A shift of the position by the WAL-growth delta moves the counter with the data and accounts for nothing.
+        sl = lib.slice_back(fn, lib.rv_operands(st['rv']), through_calls=True, at=(st['bb'], st['idx']))
+        if any(c.name == 'len' for c in sl.calls) or sl.has_field('Frame', 'payload_length') or 'PtrMetadata' in sl.ops:
+            return fn.key
     if depth == 0:
         return None
     for c in fn.calls():
@@ -143,8 +149,30 @@ def run(ctx):
         ctx.ok('GUARD-C24b', fn, 'projected usage includes the prepared payload length', line=guard.line)
     else:
         ctx.bad('GUARD-C24b', fn, 'projected usage does not include the incoming payload length', line=guard.line, detail='projected-without-incoming')
+    # ---- C24f: the size admitted is the size stored
+    ctx.rule('FLOW-C24f', 'the prepared payload whose length the capacity guard admits is the buffer stored in the WAL entry (same prepare call)')
+    PREP = ('prepare_canonical_payload', 'prepare_canonical_payload_with_level', 'memvid::mutation::prepare_canonical_payload', 'memvid::mutation::prepare_canonical_payload_with_level')
+    cg = [c for c in proj.calls if c.is_(PREP)]
+    cs = []
+    for bb, i, st in fn.stmts():
+        rv = st['rv']
+        if rv['k'] == 'agg' and rv.get('adt') == 'WalEntryData' and 'payload' in rv['fields']:
+            cs += [c for c in lib.slice_back(fn, [rv['ops'][rv['fields'].index('payload')]], through_calls=True, at=(bb, i)).calls if c.is_(PREP)]
+    ctx.evaluations += len(cg) + len(cs)
+    if not cg or not cs:
+        ctx.lost('FLOW-C24f', 'put_internal: prepare_canonical_payload* calls not found on the guard (%d) / storage (%d) side' % (len(cg), len(cs)))
+    else:
+        orphan = [c for c in cg if c not in cs]
+        if orphan:
+            ctx.bad('FLOW-C24f', fn, 'the capacity guard admits the length of a buffer (%s at line %s) that is not the one stored: the stored payload is prepared separately (possibly at another '
+                    'compression level), so a put can be admitted whose stored bytes exceed the remaining capacity' % (orphan[0].key.split('::')[-1], orphan[0].line),
+                    line=orphan[0].line, sink='WalEntryData.payload', detail='admitted-size-not-stored-size')
+        else:
+            ctx.ok('FLOW-C24f', fn, 'every prepared buffer whose length is admitted also feeds WalEntryData.payload', line=cg[0].line)
     # ---- C24a
-    uf = usage_fields(F, fn, proj) - {'batch_opts'}
+    mem = F.adt('Memvid')
+    counters = {f['name'] for v in (mem['variants'] if mem else []) for f in v['fields'] if f['ty'] in ('u64', 'usize')}
+    uf = (usage_fields(F, fn, proj) - {'batch_opts'}) & counters
     ctx.evaluations += len(uf)
     if not uf:
         ctx.lost('COUPLE-C24a', 'the usage counter read by the capacity guard could not be identified')
